@@ -18,7 +18,14 @@ THEOREMS = ["ElfioVerif.C06.save_twice_witness",
             "ElfioVerif.C06.saveHdr0_idem",
             "ElfioVerif.C06.save_noseg_eq",
             "ElfioVerif.C06.save_twice_no_segments",
-            "ElfioVerif.C06.save_twice_no_segments_bytes"]
+            "ElfioVerif.C06.save_twice_no_segments_bytes",
+            "ElfioVerif.C06.stepCore_resave",
+            "ElfioVerif.C06.wsdStep_resave",
+            "ElfioVerif.C06.wsdLoop_resave",
+            "ElfioVerif.C06.layoutSegment_resave",
+            "ElfioVerif.C06.segRun_resave",
+            "ElfioVerif.C06.save_twice",
+            "ElfioVerif.C06.save_idempotent_on_settled"]
 SITES = ["save_", "lsws", "lst_", "lseg", "wsd"]
 RULE = ("writer-domain programs x 4 configurations: save, save again, reload (eager or lazy), save; plus "
         "well-formed bundled examples: load, save, reload, save; non-trivial = first save succeeded and the "
